@@ -695,8 +695,8 @@ func c14Model(rp *runner.Report) {
 func init() {
 	gcJobs := func(tier string) []runner.Job {
 		return []runner.Job{
-			job(scAny(&gcCfg{id: "c14-gc-k2", k: 2, rel: true}), pick(tier, 4, 6), 2),
-			job(scAny(&gcCfg{id: "c14-gc-k3", k: 3, rel: false}), pick(tier, 3, 5), 1),
+			job(scAny(&gcCfg{id: "c14-gc-k2", k: 2, rel: true}), pick(tier, 6, 9), 2),
+			job(scAny(&gcCfg{id: "c14-gc-k3", k: 3, rel: false}), pick(tier, 5, 7), 1),
 		}
 	}
 	gcJobs("quick")
